@@ -375,6 +375,7 @@ def kani_cmd(h, extra=()):
     cmd = ["/usr/bin/time", "-f", "VERIF-RSS-KB %M", "cargo", "kani"] + KANI_FLAGS + ["--harness", h["name"], "--exact"]
     if h.get("solver"):
         cmd += ["--solver", h["solver"]]
+    cmd += list(h.get("kani_args", []))
     cmd += list(extra)
     return cmd
 
